@@ -207,6 +207,40 @@ def e2e_chunk_late_reply(ctx, runs, par):
         ctx.findings.append({"key": "packet:crash-after-engine-closed", "what": why, "replay": path})
 
 
+def caller_blocked_write(ctx, k):
+    """Cancellation while the write path of the packet engine is blocked (sender asleep in the real limiter's Take() at
+    -r 1/30s, or inside a device write that blocks), under the REAL startScanEngine: the scan call must return promptly."""
+    ok, _ = ctx.harness_run("c07", ["-callerblock", k, "-seed", ctx.seed, "-out", "callerblock.jsonl"], timeout=600)
+    if not ok:
+        if not any(f["key"] == "packet:crash" for f in ctx.findings):
+            crashed(ctx, "packet", "c07", ["-callerblock", k, "-seed", ctx.seed], k, None)
+        return
+    for o in ctx.read_jsonl(os.path.join(ctx.work, "callerblock.jsonl")):
+        ctx.count("caller-blocked-write", ("callerblock", o["kind"], o["n"], o["requests"], o["block_after"]), nontrivial=o["written"] >= 1,
+                  sample={"engine": "packet engine under the real startScanEngine", "write_path": o["kind"], "workers": o["n"],
+                          "requests": o["requests"], "frames_out_before_the_block": o["written"],
+                          "returned_ms_after_cancel": o["after_cancel_ms"] if o["returned"] else None})
+        ctx.cov["traces_validated_against_impl"] += 1
+        what = {"rate": "the sender waits in limiter.Take() for its next slot (real rate-limit wrapper, real limiter, 1 probe per 30 s as "
+                        "with `-r 1/30s`)",
+                "device": "the sender is inside a device write that blocks (full send queue)"}[o["kind"]]
+        why = None
+        if o["panic"]:
+            why = "panic: " + o["panic"]
+        elif not o["returned"]:
+            why = "the scan call (startScanEngine) has not returned %d ms after the cancellation" % o["waited_ms"]
+        elif o["after_cancel_ms"] > 3000:
+            why = "the scan call (startScanEngine) returns only %d ms after the cancellation" % o["after_cancel_ms"]
+        if why:
+            why = "packet scan of %d requests with %d generator workers, cancelled after %d frames went out while %s: %s" % (
+                o["requests"], o["n"], o["written"], what, why)
+            path = ctx.write_replay("callerblock-%s-%d" % (o["kind"], o["case"]), {
+                "property": "C12", "what": why, "input": {"harness": "c07 -callerblock %d -seed %d" % (k, ctx.seed), "case": o["case"],
+                                                          "write_path": o["kind"], "workers": o["n"], "requests": o["requests"],
+                                                          "block_after_writes": o["block_after"]}, "observed": o})
+            ctx.findings.append({"key": "packet:caller-blocked-write:%s" % o["kind"], "what": why, "replay": path})
+
+
 def run(ctx):
     quick = ctx.tier == "quick"
     ctx.trusted += ["Base/Net.v is the assumed semantics of Go channels, select, close, WaitGroup and context cancellation",
@@ -225,6 +259,8 @@ def run(ctx):
             for gmp in ("1", "4"):
                 rows += batch(ctx, ctx.seed + int(gmp), 400, 400, tag="_g" + gmp, env={"GOMAXPROCS": gmp})
     judge(ctx, rows)
+    if ctx.harness_build("c07"):
+        caller_blocked_write(ctx, 4 if quick else 24)
     e2e_chunk_late_reply(ctx, 3 if quick else 12, 6 if quick else 12)
     e2e_cancel_app(ctx)
     if not quick:
@@ -253,10 +289,13 @@ MANIFEST = {
     "technique": "Coq proof over an interleaving semantics with cancellation enabled in every state: ownership discipline "
                  "(no send on closed / double close) and constructive 'can always return' theorems for both engines; "
                  "pinned source skeletons + cancel-at-k runs of the real engines",
-    "level_text": "C12_no_panic_*, C12_closed_is_dead_*, C12_app_call_can_return, C12_packet_streams_end hold for every "
+    "level_text": "C12_no_panic_*, C12_closed_is_dead_*, C12_app_call_can_return, C12_packet_streams_end, "
+                  "C12_packet_call_returns_sender_frozen (the call comes back in a continuation in which the sender, the source, "
+                  "the workers and the receiver take no step at all) hold for every "
                   "worker count, input and reachable state of the modelled networks (cancellation may fall anywhere); "
                   "C12_shape ties the models to the current goroutine structure; cancel-at-k runs of the real packet engine "
-                  "and of the real startScanEngine path are judged by the property.",
+                  "and of the real startScanEngine path, and cancellations while the write path is blocked (sender asleep in "
+                  "the real limiter at 1/30s, blocking device write) under the real startScanEngine, are judged by the property.",
     "level_note": "Partial: bounded-time return and select fairness are runtime behaviour (measured with a 5 s bound); the "
                   "models cover the engines, startScanEngine's logger/drain/caller and the error merger, not every request "
                   "generator. Trusted: Coq kernel+VM, Net.v semantics, skeleton extraction, harness mocks.",
